@@ -234,7 +234,9 @@ def check(case, ctx):
         hmax1 = float(np.max(np.diff(tk)))
         for name, er, sg in (("state", errs, sx), ("integral", errI, sI)):
             # the error must vanish as M grows: clear divergence is a failure
-            if er[1] > 1e-8 and er[8] > 2.0 * er[1]:
+            # (a small error at M=1 can be a lucky cancellation of error terms of opposite sign, so growth relative to M=1
+            # counts only if the error is not clearly shrinking between the two finest discretisations either)
+            if er[1] > 1e-8 and er[8] > 2.0 * er[1] and er[8] > 0.9 * er[4]:
                 fails.append(Fail("error-grows-with-M", dict(feats, quantity=name), {"errors": er}))
                 continue
             # observed order on the two finest pairs whose (dominant-component) errors have the same sign and lie above the
